@@ -203,6 +203,20 @@ Definition h_sbadd (args : list bytes) : bytes :=
       end
   end.
 
+(* gen.rebuild FLAGS PROGRAM REFS KEYS TABLE : solution_generator over the recovered coin spends *)
+Definition h_rebuild (args : list bytes) : bytes :=
+  let gf := gflags_of_bits (dec (arg 0 args)) in
+  let program := hx (arg 1 args) in
+  let refs := refs_of (arg 2 args) in
+  let run := run_of_table (table_arg (arg 4 args)) in
+  match get_coinspends_for_trusted_block run sha256 program refs gf with
+  | Err InternalPanic => str "NOLOOKUP"
+  | Err _ => str "ERR-CS"
+  | Ok cs =>
+      let d := fun r : option bytes => match r with Some b => digest b | None => str "ERR" end in
+      str "rev=" ++ d (solution_generator (fast_rev cs)) ++ str " fwd=" ++ d (solution_generator cs)
+  end.
+
 (* gen.plain PROGRAM : back-reference deserialization, then plain serialization *)
 Definition h_plain (args : list bytes) : bytes :=
   match node_from_bytes_backrefs (hx (arg 0 args)) with
@@ -222,7 +236,7 @@ Definition h_romconst (args : list bytes) : bytes :=
   boolo (sexp_eqb rom_local_deserialize_mod DESERIALIZER) ++ [sp] ++ to_hex (ser' ROM).
 
 Definition gen_handlers : list (bytes * handler) :=
-  [ (str "gen.both", h_both); (str "gen.trusted", h_trusted); (str "gen.sbadd", h_sbadd);
+  [ (str "gen.both", h_both); (str "gen.trusted", h_trusted); (str "gen.sbadd", h_sbadd); (str "gen.rebuild", h_rebuild);
     (str "gen.plain", h_plain); (str "gen.vbytes", h_vbytes); (str "gen.romconst", h_romconst) ].
 
 Definition dispatch_n (line : list N) : list N :=
